@@ -11,6 +11,11 @@ BUILT = {
          "Trusts the harness' table of std/scale-info shapes for external paths, the lowering model (validated against scale-info 2.11.5 on a corpus of real derives each run) and syn. Coincidental (non-CF) programs are discarded and counted. Substitute targets are assumed wire-faithful.",
          "proptest-driven tape generator of source programs + differential oracle (registry shape vs interpreted generated items, coinductive bisimulation)",
          "DESIGN.md sections 3, 4.2, 5 C01"),
+ "C02": ("exploration",
+         "Generated programs from ALL strata (coincidental or not, associated types, two versions, look-alike names, recursion, skipped/unused parameters; de-duplicated first when paths repeat), the full Polkadot registry and random closed sub-registries are generated and the output is parsed with syn and put through a static checker that models the rustc errors the generator could cause (E0412 unresolved path through the `use super::root` chain, E0107 arity, E0392 unused parameter, E0428 duplicate names, E0072 recursive type without indirection with generic flow, duplicate codec indices). The rustc stage of the thorough tier compiles emitted modules for real.",
+         "The static checker is a model of rustc for the emitted subset; user supplied paths (derives, substitutes, compact/bits paths) are assumed to exist. The thorough tier's rustc stage needs the cached crates of /repo's lockfile.",
+         "proptest-driven tape generator of registries + validity predicate (parse + static name-resolution/arity/usage/cycle checker)",
+         "DESIGN.md section 5 C02"),
  "C03": ("exploration",
          "Bounded-exhaustive enumeration of the catalogue of same-path families (Appendix B: all ordered pairs of members over small parameter lists, field terms and arguments, both registry orders; level 0 complete and level 1 strided in the quick tier, level 1 complete and level 2 strided in the thorough tier) plus random programs with associated-type and two-version definitions; oracle: generation succeeds only if every member is wire-faithfully represented by the kept item, and after ensure_unique_type_paths generation succeeds and the same holds.",
          "Uses the C01 shape oracle; coincidental families are skipped and counted; the known finding dedup:renamed-path-collides is excluded by construction from part (b) and covered by its probe.",
@@ -21,6 +26,11 @@ BUILT = {
          "Whether two groups really differ in shape is C03's oracle; the ground truth for 'instantiations of one definition' comes from the source program and is used for coincidence-free programs only. Registries with the known finding's shape (family next to an existing Name<digits>) are excluded and counted.",
          "proptest-driven tape generator of family-rich registries + before/after model of the de-duplication contract + metamorphic idempotence check",
          "DESIGN.md section 5 C04"),
+ "C18": ("exploration",
+         "For every struct and every variant of every emitted non-generic item of generated registries (and of the full Polkadot registry under four settings) the public composite API (create_composite_ir_kind + CompositeIR::new + upcast_composite) is called and the resulting struct is parsed and compared with the registry field list by the C01 shape oracle, with the tokens/compact markers of the same variant in the emitted enum, and with the derive/attribute model (global only; CompactAs iff configured and exactly one unsigned field <= 128 bits, Cow transparent, boxed integer accepted either way).",
+         "Byte-level equality of struct encoding and variant payload follows from shape equality (same oracle as C01).",
+         "proptest-driven tape generator + differential oracle (registry field list vs interpreted standalone struct vs the enum's own variant) + derive-set model",
+         "DESIGN.md section 5 C18"),
  "C15": ("exploration",
          "Bounded-exhaustive enumeration of all strings over the 9-character bracket alphabet up to length 7 (quick) / 9 (thorough) plus tape-driven random hostile strings and properly nested strings around the 32-character look-ahead, each checked against a whitespace-only relation and an indentation depth model; every description produced by the C13 check is also fed through it. Exploration is the right level: the function is total over strings, cheap, and its only state is a depth counter, so small-scope exhaustiveness plus boundary-directed generation covers its decision structure.",
          "Trusts the harness' depth model (validated against the unchanged formatter on the exhaustive stratum) and Rust's char::is_whitespace. The small/large scope decision is not constrained.",
